@@ -67,6 +67,13 @@ func membership(sa flows.SessionAssets, env envs.Environment, c *flows.Contact, 
 				return harn.Failf("location-query-model", "%s: group %q (query %s): the evaluator says %v, the contact's field value at the field's own level gives %v (fields %s)", when, g.Name(), g.Query(), matches, mv, fieldsJSON(c)), nil
 			}
 		}
+		// and for groups defined by one date condition: calendar days in the environment's timezone
+		if mv, ok := dateLeafModel(g.Query(), c, env); ok && active && (len(alt) == 0 || alt[0].Timezone().String() == env.Timezone().String()) {
+			stats.Label("membership:date-leaf-model")
+			if mv != matches {
+				return harn.Failf("date-query-model", "%s: group %q (query %s): the evaluator says %v, comparing calendar days in %s gives %v (created_on %s, fields %s)", when, g.Name(), g.Query(), matches, env.Timezone(), mv, c.CreatedOn().Format(time.RFC3339Nano), fieldsJSON(c)), nil
+			}
+		}
 		want := active && matches
 		state = append(state, fmt.Sprintf("%s=%v", g.Name(), in))
 		if in != want && len(alt) > 0 && active && g.CheckQueryBasedMembership(alt[0], c) != matches {
@@ -115,6 +122,54 @@ func locationLeafModel(query string, c *flows.Contact) (bool, bool) {
 		return m[2] == "!=", true
 	}
 	return (name == q) == (m[2] == "="), true
+}
+
+var dateLeaf = regexp.MustCompile(`^(created_on|last_seen_on|dob|joined) (=|!=|<|>|<=|>=) "(\d{4}-\d{2}-\d{2})"$`)
+
+// dateLeafModel: a date condition compares the calendar day of the contact's value, taken in the environment's timezone,
+// with the day the query names (ISO days order like their text). Absent values are left to the evaluator.
+func dateLeafModel(query string, c *flows.Contact, env envs.Environment) (bool, bool) {
+	m := dateLeaf.FindStringSubmatch(query)
+	if m == nil {
+		return false, false
+	}
+	var at time.Time
+	switch m[1] {
+	case "created_on":
+		at = c.CreatedOn()
+	case "last_seen_on":
+		if c.LastSeenOn() == nil {
+			return false, false
+		}
+		at = *c.LastSeenOn()
+	default:
+		var fields map[string]map[string]any
+		_ = json.Unmarshal([]byte(fieldsJSON(c)), &fields)
+		raw, _ := fields[m[1]]["datetime"].(string)
+		if raw == "" {
+			return false, false
+		}
+		parsed, err := time.Parse(time.RFC3339Nano, raw)
+		if err != nil {
+			return false, false
+		}
+		at = parsed
+	}
+	day := at.In(env.Timezone()).Format("2006-01-02")
+	switch m[2] {
+	case "=":
+		return day == m[3], true
+	case "!=":
+		return day != m[3], true
+	case "<":
+		return day < m[3], true
+	case ">":
+		return day > m[3], true
+	case "<=":
+		return day <= m[3], true
+	default:
+		return day >= m[3], true
+	}
 }
 
 var urnLeaf = regexp.MustCompile(`^(tel|twitter|mailto|facebook|telegram|urn) (=|!=|~) "([^"\\]*)"$`)
@@ -204,7 +259,7 @@ func engineOracle(r *scen.Runner, sp *scen.Sprint) *harn.Failure {
 }
 
 var engineOpts = scen.GenOpts{
-	World: world.Opts{MaxFlows: 2, MaxNodes: 5, QueryGroups: true,
+	World: world.Opts{MaxFlows: 2, MaxNodes: 5, QueryGroups: true, WaitHeavy: true,
 		Actions: []string{"set_contact_name", "set_contact_language", "set_contact_field", "set_contact_status", "set_contact_timezone", "set_contact_channel",
 			"add_contact_groups", "remove_contact_groups", "add_contact_urn", "open_ticket", "send_msg", "enter_flow"}},
 	StaleGroups:  true,
